@@ -1,3 +1,511 @@
 import ShVerif.Model.C14
+/-
+  C14 — helper lemmas for Props/C14.lean (core Lean only).
+-/
 namespace ShVerif.C14
+
+/-! ### Generic list lemmas -/
+
+theorem perm_flatMap_congr {α β} {l : List α} {f g : α → List β}
+    (h : ∀ x ∈ l, (f x).Perm (g x)) : (l.flatMap f).Perm (l.flatMap g) := by
+  induction l with
+  | nil => exact .refl _
+  | cons a l ih =>
+    simp only [List.flatMap_cons]
+    exact (h a (by simp)).append (ih fun x hx => h x (by simp [hx]))
+
+theorem flatMap_append_perm {α β} (l : List α) (f g : α → List β) :
+    (l.flatMap f ++ l.flatMap g).Perm (l.flatMap fun x => f x ++ g x) := by
+  induction l with
+  | nil => exact .refl _
+  | cons a l ih =>
+    simp only [List.flatMap_cons]
+    -- (f a ++ F) ++ (g a ++ G) ~ (f a ++ g a) ++ FG
+    have h1 : (f a ++ l.flatMap f ++ (g a ++ l.flatMap g)).Perm
+        (f a ++ g a ++ (l.flatMap f ++ l.flatMap g)) := by
+      simp only [List.append_assoc]
+      refine List.Perm.append_left _ ?_
+      simp only [← List.append_assoc]
+      exact List.Perm.append_right _ List.perm_append_comm
+    exact h1.trans (List.Perm.append_left _ ih)
+
+theorem flatMap_range_ite {β} (a : Nat) (v : List β) (n : Nat) :
+    (List.range n).flatMap (fun s => if a = s then v else []) = if a < n then v else [] := by
+  induction n with
+  | zero => simp
+  | succ n ih =>
+    rw [List.range_succ, List.flatMap_append, ih]
+    by_cases h1 : a < n
+    · have h2 : a ≠ n := by omega
+      have h3 : a < n + 1 := by omega
+      simp [h1, h2, h3]
+    · by_cases h2 : a = n
+      · have h3 : a < n + 1 := by omega
+        simp [h2]
+      · have h3 : ¬ a < n + 1 := by omega
+        simp [h1, h2, h3]
+
+/-- Regrouping a flatMap over a list by a bounded key. -/
+theorem flatMap_range_filter {α β} (key : α → Nat) (g : α → List β) (n : Nat) (l : List α)
+    (hb : ∀ x ∈ l, key x < n) :
+    ((List.range n).flatMap fun s => (l.filter fun x => key x = s).flatMap g).Perm (l.flatMap g) := by
+  induction l with
+  | nil => simp
+  | cons a l ih =>
+    have ha : key a < n := hb a (by simp)
+    have hl : ∀ x ∈ l, key x < n := fun x hx => hb x (by simp [hx])
+    have e : (fun s => ((a :: l).filter fun x => key x = s).flatMap g)
+        = fun s => (if key a = s then g a else []) ++ (l.filter fun x => key x = s).flatMap g := by
+      funext s
+      by_cases h : key a = s <;> simp [h]
+    rw [e]
+    refine (flatMap_append_perm _ _ _).symm.trans ?_
+    rw [flatMap_range_ite, if_pos ha, List.flatMap_cons]
+    exact List.Perm.append_left _ (ih hl)
+
+/-! ### enters -/
+
+theorem enters_append (a b : List Ev) : enters (a ++ b) = enters a ++ enters b := by
+  induction a with
+  | nil => rfl
+  | cons e a ih => cases e <;> simp [enters, ih]
+
+theorem enters_flatMap {α} (l : List α) (f : α → List Ev) :
+    enters (l.flatMap f) = l.flatMap fun x => enters (f x) := by
+  induction l with
+  | nil => rfl
+  | cons a l ih => simp [List.flatMap_cons, enters_append, ih]
+
+theorem visibleList_eq (keep : Nat → Bool) (ks : List Tree) :
+    visibleList keep ks = ks.flatMap (visible keep) := by
+  induction ks with
+  | nil => simp [visibleList]
+  | cons k ks ih => simp [visibleList, ih]
+
+mutual
+  theorem visible_true : ∀ t : Tree, visible (fun _ => true) t = allIds t
+    | .node _ id _ _ kids => by
+      simp only [visible, allIds, if_true]
+      rw [visibleList_true kids]
+  theorem visibleList_true : ∀ ks : List Tree, visibleList (fun _ => true) ks = allIdsList ks
+    | [] => by simp [visibleList, allIdsList]
+    | k :: ks => by
+      simp only [visibleList, allIdsList]
+      rw [visible_true k, visibleList_true ks]
+end
+
+/-! ### Per-slot visits as permutations of the slot's children -/
+
+section perm
+variable (tbl : Table) (keep : Nat → Bool)
+
+theorem sel_perm (s : Nat) (kids : List Tree)
+    (H : ∀ k ∈ kids, (enters (walk tbl keep k)).Perm (visible keep k)) :
+    (enters (walkSel tbl keep s kids)).Perm ((kids.filter fun k => k.slot = s).flatMap (visible keep)) := by
+  induction kids with
+  | nil => simp [walkSel, enters]
+  | cons k ks ih =>
+    have hk := H k (by simp)
+    have ih := ih fun x hx => H x (by simp [hx])
+    simp only [walkSel, enters_append]
+    by_cases h : k.slot = s
+    · simp only [h, if_true, List.filter_cons, decide_true, List.flatMap_cons]
+      exact hk.append ih
+    · simpa [h, enters] using ih
+
+theorem req_perm (s : Nat) (kids : List Tree) (hc : slotCount s kids = 1)
+    (H : ∀ k ∈ kids, (enters (walk tbl keep k)).Perm (visible keep k)) :
+    (enters (walkReq tbl keep s kids)).Perm ((kids.filter fun k => k.slot = s).flatMap (visible keep)) := by
+  induction kids with
+  | nil => simp [slotCount] at hc
+  | cons k ks ih =>
+    have hk := H k (by simp)
+    have ih := fun hc => ih hc fun x hx => H x (by simp [hx])
+    simp only [walkReq]
+    by_cases h : k.slot = s
+    · have h0 : ks.filter (fun k => k.slot = s) = [] := by
+        simpa [slotCount, h] using hc
+      simp only [h, if_true, List.filter_cons, decide_true, List.flatMap_cons, h0,
+        List.flatMap_nil, List.append_nil]
+      exact hk
+    · have hc' : slotCount s ks = 1 := by simpa [slotCount, h] using hc
+      simpa [h] using ih hc'
+
+theorem split_perm (s : Nat) (kids : List Tree) (hc : splitOk s kids = true)
+    (H : ∀ k ∈ kids, (enters (walk tbl keep k)).Perm (visible keep k)) :
+    (enters (walkLead tbl keep s kids) ++ enters (walkTrail tbl keep s kids)).Perm
+      ((kids.filter fun k => k.slot = s).flatMap (visible keep)) := by
+  induction kids with
+  | nil => simp [walkLead, walkTrail, enters]
+  | cons k ks ih =>
+    have hk := H k (by simp)
+    have ih := fun hc => ih hc fun x hx => H x (by simp [hx])
+    simp only [walkLead, walkTrail]
+    by_cases h : k.slot = s
+    · by_cases hf : k.flag = true
+      · simp only [splitOk, h, hf, decide_true, Bool.and_self, if_true, Bool.and_eq_true] at hc
+        have h0 : ks.filter (fun k => k.slot = s) = [] := by
+          rw [List.filter_eq_nil_iff]
+          intro a ha
+          have := List.all_eq_true.mp hc.1 a ha
+          simpa using this
+        simp only [h, hf, if_true, List.filter_cons, decide_true, List.flatMap_cons, h0,
+          List.flatMap_nil, List.append_nil, enters, List.nil_append]
+        exact hk
+      · have hc' : splitOk s ks = true := by simpa [splitOk, h, hf] using hc
+        simp only [h, hf, if_true, List.filter_cons, decide_true, List.flatMap_cons,
+          Bool.false_eq_true, if_false, enters_append, List.append_assoc]
+        exact hk.append (ih hc')
+    · have hc' : splitOk s ks = true := by simpa [splitOk, h] using hc
+      simpa [h] using ih hc'
+
+end perm
+
+/-! ### The body of `walk` split into named pieces -/
+
+/-- events of instruction `i` in the main sequence -/
+def bodyA (tbl : Table) (keep : Nat → Bool) (kids : List Tree) (i : Instr) : List Ev :=
+  match i.op with
+  | .walk => walkReq tbl keep i.slot kids
+  | .nilable => walkSel tbl keep i.slot kids
+  | .list => walkSel tbl keep i.slot kids
+  | .comments => walkSel tbl keep i.slot kids
+  | .split _ => walkLead tbl keep i.slot kids
+
+/-- trailing comment before `f(nil)` -/
+def bodyB (tbl : Table) (keep : Nat → Bool) (kids : List Tree) (i : Instr) : List Ev :=
+  match i.op with
+  | .split false => walkTrail tbl keep i.slot kids
+  | _ => []
+
+/-- trailing comment after `f(nil)` (deferred) -/
+def bodyC (tbl : Table) (keep : Nat → Bool) (kids : List Tree) (i : Instr) : List Ev :=
+  match i.op with
+  | .split true => walkTrail tbl keep i.slot kids
+  | _ => []
+
+/-- the side condition `wf` imposes on the children for one instruction -/
+def instrOk (kids : List Tree) (i : Instr) : Bool :=
+  match i.op with
+  | .walk => slotCount i.slot kids == 1
+  | .nilable => slotCount i.slot kids ≤ 1
+  | .split _ => splitOk i.slot kids
+  | _ => true
+
+theorem walk_node (tbl : Table) (keep : Nat → Bool) (ty id sl : Nat) (fl : Bool) (kids : List Tree) :
+    walk tbl keep (.node ty id sl fl kids) =
+      if !keep id then [.enter id] else
+      match tbl ty with
+      | none => [.enter id, .panic]
+      | some instrs =>
+        .enter id :: instrs.flatMap (bodyA tbl keep kids) ++ instrs.flatMap (bodyB tbl keep kids)
+          ++ [.leave id] ++ instrs.flatMap (bodyC tbl keep kids) := by
+  rw [walk]; rfl
+
+theorem wf_node (tbl : Table) (ty id sl : Nat) (fl : Bool) (kids : List Tree) :
+    wf tbl (.node ty id sl fl kids) =
+      ((match tbl ty with
+        | none => false
+        | some instrs => instrs.all (instrOk kids)) && wfList tbl kids) := by
+  rw [wf]; rfl
+
+theorem wf_node_iff (tbl : Table) (ty id sl : Nat) (fl : Bool) (kids : List Tree) :
+    wf tbl (.node ty id sl fl kids) = true ↔
+      (∃ instrs, tbl ty = some instrs ∧ ∀ i ∈ instrs, instrOk kids i = true) ∧ wfList tbl kids = true := by
+  rw [wf_node]
+  cases h : tbl ty with
+  | none => simp
+  | some instrs => simp [List.all_eq_true]
+
+/-! ### Visit-once / pruning -/
+
+theorem instr_perm (tbl : Table) (keep : Nat → Bool) (kids : List Tree) (i : Instr)
+    (hok : instrOk kids i = true)
+    (H : ∀ k ∈ kids, (enters (walk tbl keep k)).Perm (visible keep k)) :
+    (enters (bodyA tbl keep kids i) ++ enters (bodyB tbl keep kids i) ++ enters (bodyC tbl keep kids i)).Perm
+      ((kids.filter fun k => k.slot = i.slot).flatMap (visible keep)) := by
+  unfold instrOk at hok
+  unfold bodyA bodyB bodyC
+  cases hop : i.op with
+  | walk =>
+    simp only [hop, beq_iff_eq] at hok
+    simpa [enters] using req_perm tbl keep i.slot kids hok H
+  | nilable => simpa [enters] using sel_perm tbl keep i.slot kids H
+  | list => simpa [enters] using sel_perm tbl keep i.slot kids H
+  | comments => simpa [enters] using sel_perm tbl keep i.slot kids H
+  | split b =>
+    simp only [hop] at hok
+    cases b <;> simpa [enters] using split_perm tbl keep i.slot kids hok H
+
+theorem node_perm (tbl : Table) (keep : Nat → Bool) (n : Nat) (instrs : List Instr) (kids : List Tree)
+    (hp : (instrs.map (·.slot)).Perm (List.range n))
+    (hok : ∀ i ∈ instrs, instrOk kids i = true)
+    (hb : ∀ k ∈ kids, k.slot < n)
+    (H : ∀ k ∈ kids, (enters (walk tbl keep k)).Perm (visible keep k)) (id : Nat) :
+    (enters (instrs.flatMap (bodyA tbl keep kids) ++ instrs.flatMap (bodyB tbl keep kids)
+          ++ [.leave id] ++ instrs.flatMap (bodyC tbl keep kids))).Perm
+      (visibleList keep kids) := by
+  simp only [enters_append, enters_flatMap, enters, List.append_nil, visibleList_eq]
+  refine (List.Perm.append_right _ (flatMap_append_perm _ _ _)).trans ?_
+  refine (flatMap_append_perm _ _ _).trans ?_
+  refine (perm_flatMap_congr (g := fun i => (kids.filter fun k => k.slot = i.slot).flatMap (visible keep))
+    fun i hi => instr_perm tbl keep kids i (hok i hi) H).trans ?_
+  have e : (instrs.flatMap fun i => (kids.filter fun k => k.slot = i.slot).flatMap (visible keep))
+      = (instrs.map (·.slot)).flatMap fun s => (kids.filter fun k => k.slot = s).flatMap (visible keep) := by
+    rw [List.flatMap_map]
+  rw [e]
+  exact (List.Perm.flatMap_right _ hp).trans (flatMap_range_filter Tree.slot (visible keep) n kids hb)
+
+theorem bounded_node_iff (nslots : Nat → Nat) (ty id sl : Nat) (fl : Bool) (kids : List Tree) :
+    bounded nslots (.node ty id sl fl kids) = true ↔
+      (∀ k ∈ kids, k.slot < nslots ty) ∧ boundedList nslots kids = true := by
+  simp [bounded, List.all_eq_true]
+
+mutual
+  theorem prune_tree (tbl : Table) (nslots : Nat → Nat) (hc : TableComplete tbl nslots)
+      (keep : Nat → Bool) : ∀ t : Tree, wf tbl t = true → bounded nslots t = true →
+        (enters (walk tbl keep t)).Perm (visible keep t)
+    | .node ty id sl fl kids => by
+      intro hwf hb
+      obtain ⟨⟨instrs, htbl, hok⟩, hwfk⟩ := (wf_node_iff ..).mp hwf
+      obtain ⟨hbk, hbl⟩ := (bounded_node_iff ..).mp hb
+      have H := prune_list tbl nslots hc keep kids hwfk hbl
+      rw [walk_node, visible]
+      cases hk : keep id with
+      | false => simp [enters]
+      | true =>
+        simp only [Bool.not_true, Bool.false_eq_true, if_false, if_true, htbl, List.cons_append, enters]
+        exact List.Perm.cons _ (node_perm tbl keep (nslots ty) instrs kids (hc ty instrs htbl) hok hbk H id)
+  theorem prune_list (tbl : Table) (nslots : Nat → Nat) (hc : TableComplete tbl nslots)
+      (keep : Nat → Bool) : ∀ ks : List Tree, wfList tbl ks = true → boundedList nslots ks = true →
+        ∀ k ∈ ks, (enters (walk tbl keep k)).Perm (visible keep k)
+    | [] => by intro _ _ k hk; cases hk
+    | k :: ks => by
+      intro hwf hb x hx
+      simp only [wfList, boundedList, Bool.and_eq_true] at hwf hb
+      rcases List.mem_cons.mp hx with h | hx
+      · rw [h]; exact prune_tree tbl nslots hc keep k hwf.1 hb.1
+      · exact prune_list tbl nslots hc keep ks hwf.2 hb.2 x hx
+end
+
+/-! ### Properties of event lists that are closed under concatenation
+    (used for "no panic" and for "balanced brackets") -/
+
+section good
+set_option linter.unusedSectionVars false
+variable (tbl : Table) (keep : Nat → Bool) (G : List Ev → Prop)
+  (h0 : G []) (happ : ∀ a b, G a → G b → G (a ++ b))
+include h0 happ
+
+theorem good_flatMap {α} (l : List α) (f : α → List Ev) (h : ∀ x ∈ l, G (f x)) : G (l.flatMap f) := by
+  induction l with
+  | nil => exact h0
+  | cons a l ih =>
+    rw [List.flatMap_cons]
+    exact happ _ _ (h a (by simp)) (ih fun x hx => h x (by simp [hx]))
+
+theorem sel_good (s : Nat) (kids : List Tree) (H : ∀ k ∈ kids, G (walk tbl keep k)) :
+    G (walkSel tbl keep s kids) := by
+  induction kids with
+  | nil => simpa [walkSel] using h0
+  | cons k ks ih =>
+    have ih := ih fun x hx => H x (by simp [hx])
+    simp only [walkSel]
+    refine happ _ _ ?_ ih
+    by_cases h : k.slot = s
+    · simpa [h] using H k (by simp)
+    · simpa [h] using h0
+
+theorem req_good (s : Nat) (kids : List Tree) (hc : slotCount s kids = 1)
+    (H : ∀ k ∈ kids, G (walk tbl keep k)) : G (walkReq tbl keep s kids) := by
+  induction kids with
+  | nil => simp [slotCount] at hc
+  | cons k ks ih =>
+    have ih := fun hc => ih hc fun x hx => H x (by simp [hx])
+    simp only [walkReq]
+    by_cases h : k.slot = s
+    · simpa [h] using H k (by simp)
+    · have hc' : slotCount s ks = 1 := by simpa [slotCount, h] using hc
+      simpa [h] using ih hc'
+
+theorem lead_good (s : Nat) (kids : List Tree) (H : ∀ k ∈ kids, G (walk tbl keep k)) :
+    G (walkLead tbl keep s kids) := by
+  induction kids with
+  | nil => simpa [walkLead] using h0
+  | cons k ks ih =>
+    have ih := ih fun x hx => H x (by simp [hx])
+    simp only [walkLead]
+    by_cases h : k.slot = s
+    · cases hf : k.flag with
+      | true => simpa [h, hf] using h0
+      | false => simpa [h, hf] using happ _ _ (H k (by simp)) ih
+    · simpa [h] using ih
+
+theorem trail_good (s : Nat) (kids : List Tree) (H : ∀ k ∈ kids, G (walk tbl keep k)) :
+    G (walkTrail tbl keep s kids) := by
+  induction kids with
+  | nil => simpa [walkTrail] using h0
+  | cons k ks ih =>
+    have ih := ih fun x hx => H x (by simp [hx])
+    simp only [walkTrail]
+    by_cases h : k.slot = s
+    · cases hf : k.flag with
+      | true => simpa [h, hf] using H k (by simp)
+      | false => simpa [h, hf] using ih
+    · simpa [h] using ih
+
+theorem bodyA_good (kids : List Tree) (i : Instr) (hok : instrOk kids i = true)
+    (H : ∀ k ∈ kids, G (walk tbl keep k)) : G (bodyA tbl keep kids i) := by
+  unfold instrOk at hok
+  unfold bodyA
+  cases hop : i.op with
+  | walk =>
+    simp only [hop, beq_iff_eq] at hok
+    exact req_good tbl keep G h0 happ i.slot kids hok H
+  | nilable => exact sel_good tbl keep G h0 happ i.slot kids H
+  | list => exact sel_good tbl keep G h0 happ i.slot kids H
+  | comments => exact sel_good tbl keep G h0 happ i.slot kids H
+  | split b => exact lead_good tbl keep G h0 happ i.slot kids H
+
+theorem bodyB_good (kids : List Tree) (i : Instr)
+    (H : ∀ k ∈ kids, G (walk tbl keep k)) : G (bodyB tbl keep kids i) := by
+  unfold bodyB
+  split
+  · exact trail_good tbl keep G h0 happ i.slot kids H
+  · exact h0
+
+theorem bodyC_good (kids : List Tree) (i : Instr)
+    (H : ∀ k ∈ kids, G (walk tbl keep k)) : G (bodyC tbl keep kids i) := by
+  unfold bodyC
+  split
+  · exact trail_good tbl keep G h0 happ i.slot kids H
+  · exact h0
+
+variable (hleaf : ∀ id, keep id = false → G [.enter id])
+  (hnode : ∀ ty id kids instrs, keep id = true → tbl ty = some instrs →
+    G (instrs.flatMap (bodyA tbl keep kids)) → G (instrs.flatMap (bodyB tbl keep kids)) →
+    G (instrs.flatMap (bodyC tbl keep kids)) →
+    G (.enter id :: instrs.flatMap (bodyA tbl keep kids) ++ instrs.flatMap (bodyB tbl keep kids)
+          ++ [.leave id] ++ instrs.flatMap (bodyC tbl keep kids)))
+include hleaf hnode
+
+mutual
+  theorem good_tree : ∀ t : Tree, wf tbl t = true → G (walk tbl keep t)
+    | .node ty id sl fl kids => by
+      intro hwf
+      obtain ⟨⟨instrs, htbl, hok⟩, hwfk⟩ := (wf_node_iff ..).mp hwf
+      have H := good_list kids hwfk
+      rw [walk_node]
+      cases hk : keep id with
+      | false => simpa using hleaf id hk
+      | true =>
+        simp only [Bool.not_true, Bool.false_eq_true, if_false, htbl]
+        exact hnode ty id kids instrs hk htbl
+          (good_flatMap G h0 happ _ _ fun i hi => bodyA_good tbl keep G h0 happ kids i (hok i hi) H)
+          (good_flatMap G h0 happ _ _ fun i _ => bodyB_good tbl keep G h0 happ kids i H)
+          (good_flatMap G h0 happ _ _ fun i _ => bodyC_good tbl keep G h0 happ kids i H)
+  theorem good_list : ∀ ks : List Tree, wfList tbl ks = true → ∀ k ∈ ks, G (walk tbl keep k)
+    | [] => by intro _ k hk; cases hk
+    | k :: ks => by
+      intro hwf x hx
+      simp only [wfList, Bool.and_eq_true] at hwf
+      rcases List.mem_cons.mp hx with h | hx
+      · rw [h]; exact good_tree k hwf.1
+      · exact good_list ks hwf.2 x hx
+end
+
+end good
+
+/-! ### No panic -/
+
+theorem nopanic_tree (tbl : Table) (keep : Nat → Bool) (t : Tree) (hwf : wf tbl t = true) :
+    Ev.panic ∉ walk tbl keep t := by
+  refine good_tree tbl keep (fun evs => Ev.panic ∉ evs) (by simp) ?_ ?_ ?_ t hwf
+  · intro a b ha hb; simp [ha, hb]
+  · intro id _; simp
+  · intro ty id kids instrs _ _ hA hB hC
+    simp [hA, hB, hC]
+
+/-! ### Brackets -/
+
+/-- run the bracket automaton from a given state -/
+def run (keep : Nat → Bool) (st : Option (List Nat)) (evs : List Ev) : Option (List Nat) :=
+  evs.foldl (fun st e => bracketStep st e (fun i => !keep i)) st
+
+theorem run_append (keep : Nat → Bool) (st : Option (List Nat)) (a b : List Ev) :
+    run keep st (a ++ b) = run keep (run keep st a) b := by
+  simp [run, List.foldl_append]
+
+/-- the events leave every stack as they found it -/
+def Balanced (keep : Nat → Bool) (evs : List Ev) : Prop :=
+  ∀ stack, run keep (some stack) evs = some stack
+
+theorem balanced_tree (tbl : Table) (hnd : NoDefer tbl) (keep : Nat → Bool) (t : Tree)
+    (hwf : wf tbl t = true) : Balanced keep (walk tbl keep t) := by
+  refine good_tree tbl keep (Balanced keep) ?_ ?_ ?_ ?_ t hwf
+  · intro st; rfl
+  · intro a b ha hb st; rw [run_append, ha, hb]
+  · intro id hk st; simp [run, bracketStep, hk]
+  · intro ty id kids instrs hk htbl hA hB _ st
+    have hC : instrs.flatMap (bodyC tbl keep kids) = [] := by
+      rw [List.flatMap_eq_nil_iff]
+      intro i hi
+      have := hnd ty instrs htbl i hi
+      unfold bodyC
+      split
+      · next h => exact absurd h this
+      · rfl
+    rw [hC, List.append_nil, ← List.singleton_append, List.append_assoc, List.append_assoc,
+      run_append, run_append, run_append]
+    have h1 : run keep (some st) [Ev.enter id] = some (id :: st) := by
+      simp [run, bracketStep, hk]
+    rw [h1, hA, hB]
+    simp [run, bracketStep]
+
+/-! ### Part C helpers: the table computed from a schema -/
+
+theorem mapM_some_mem {α β} (f : α → Option β) (l : List α) (r : List β) (h : l.mapM f = some r) :
+    ∀ i ∈ r, ∃ x ∈ l, f x = some i := by
+  induction l generalizing r with
+  | nil =>
+    simp at h
+    subst h
+    intro i hi; cases hi
+  | cons a l ih =>
+    rw [List.mapM_cons] at h
+    cases hfa : f a with
+    | none => simp [hfa] at h
+    | some y =>
+      cases hl : l.mapM f with
+      | none => simp [hfa, hl] at h
+      | some ys =>
+        simp [hfa, hl] at h
+        subst h
+        intro i hi
+        rcases List.mem_cons.mp hi with h | hi
+        · exact ⟨a, by simp, by rw [hfa, h]⟩
+        · obtain ⟨x, hx, hfx⟩ := ih ys hl i hi
+          exact ⟨x, by simp [hx], hfx⟩
+
+theorem opOfString_defer (op : String) (h : opOfString op = some (.split true)) : op = "split-defer" := by
+  unfold opOfString at h
+  split at h <;> simp_all
+
+theorem tableOf_some (sch : List TypeInfo) (ty : Nat) (instrs : List Instr)
+    (h : tableOf sch ty = some instrs) :
+    ∃ ti, sch[ty]? = some ti ∧ ti ∈ sch ∧ resolve ti = some instrs := by
+  unfold tableOf at h
+  cases hs : sch[ty]? with
+  | none => simp [hs] at h
+  | some ti =>
+    simp only [hs] at h
+    exact ⟨ti, rfl, List.mem_of_getElem? hs, h⟩
+
+theorem resolve_some (ti : TypeInfo) (instrs : List Instr) (h : resolve ti = some instrs) :
+    ∃ l, ti.instrs = some l := by
+  unfold resolve at h
+  cases hl : ti.instrs with
+  | none => simp [hl] at h
+  | some l => exact ⟨l, rfl⟩
+
 end ShVerif.C14
